@@ -5,6 +5,7 @@ import Nstd.Future.Witness
 import Nstd.Future.Safety
 import Nstd.Future.SafetyFault
 import Nstd.Future.LiveWorker
+import Nstd.Future.Progress
 import Nstd.Future.Handshake
 /-
   Property C10 — "every Future call runs exactly once and join waits for its result".
@@ -128,6 +129,33 @@ example : hsCfg.WellFormed := by
 theorem no_stuck_worker_side {cfg : Config} {s : State} (hrep : cfg.repaired = true) (h : Reach cfg s)
     (hq : jobQueued s) (hw : ∃ w, liveWorker s w) : ∃ t, enabled s t = true :=
   Nstd.Future.no_stuck_worker_side hrep h hq hw
+
+/-- Mutual exclusion and progress of the simulated Signal layer inside the full model (both code variants): the two
+    pool signals' mutexes are exclusive; a thread blocked on any Signal mutex has an owner that can step; a thread
+    blocked on the pool mutex implies some other thread can step; no sleeper of a pool signal misses a set flag (a setter
+    that can step exists). -/
+theorem signal_layer_progress {cfg : Config} {s : State} (h : Reach cfg s) :
+    (∀ σ t u a b, σ < 2 → t ≠ u → topFrame s t = some a → topFrame s u = some b →
+        critFrame cfg σ a = true → critFrame cfg σ b = true → False) ∧
+    (∀ σ t fr, topFrame s t = some fr →
+        (fr = .sSetLock σ ∨ fr = .sRstLock σ ∨ fr = .sWaitLock σ ∨ fr = .sWaitRelock σ) → enabled s t = false →
+        ∃ o, (s.sigs σ).owner = some o ∧ enabled s o = true) ∧
+    (∀ p t fr, s.pool = some p → topFrame s t = some fr → (fr = .runSpLock ∨ fr = .runRetLock) → enabled s t = false →
+        ∃ u, u ≠ t ∧ enabled s u = true) ∧
+    (∀ σ t, σ < 2 → t ∈ (s.sigs σ).waiters → (s.sigs σ).signaled = true → ∃ u, u ≠ t ∧ enabled s u = true) :=
+  ⟨fun _ _ _ _ _ hσ htu ht hu ha hb => pool_sig_mutex_exclusive_always h hσ htu ht hu ha hb,
+   fun _ _ _ ht hfr hen => sig_lock_waiter_has_enabled_owner h ht hfr hen,
+   fun _ _ _ hp ht hfr hen => pool_lock_waiter_some_enabled h hp ht hfr hen,
+   fun _ _ hσ ht hs => pool_sig_waiter_has_enabled_setter h hσ ht hs⟩
+
+/-- Shape of a (hypothetical) global deadlock: every live thread would be asleep on a condition variable whose flag is
+    unset (for never-destroyed signals) with no spurious wake-up left, or the main thread waiting in a join. -/
+theorem deadlock_shape {cfg : Config} {s : State} (h : Reach cfg s) (hdead : ∀ u, enabled s u = false)
+    {t : Tid} {fr : Frame} (ht : topFrame s t = some fr) :
+    (∃ σ, fr = .sWaitCwake σ ∧ t ∈ (s.sigs σ).waiters ∧ s.spurious = 0 ∧
+        (SigClean cfg s σ → (s.sigs σ).signaled = false)) ∨
+    (∃ i, fr = .mJoin i) ∨ (∃ i, fr = .dJoin i) :=
+  global_deadlock_shape h hdead ht
 
 /-! ## The sleep / wake protocol (FastSignal), abstract system `Nstd.Future.Proto`
 
